@@ -242,4 +242,14 @@ def cgs (_c impl : List String) : Option Verdict :=
   pure { model := "0", oracle := impl == ["0"], nontrivial := true,
          note := if impl == ["0"] then "" else "overlapping scrapes: a gather failed or lacks samples that a gather on its own has, although every interface is readable (the collector is entered concurrently)" }
 
+/-- `rp kind | scrapeDone prepareDone laterScrapeDone`: a scrape is inside a wildcard plugin's system
+    dump when the interface is re-initialised (Prepare on the same plugin values): the scrape, the
+    re-initialisation and a later scrape all complete — nothing blocks the daemon. -/
+def rp (_c impl : List String) : Option Verdict := do
+  let (a, b, c) ← P.run (do let a ← P.bool; let b ← P.bool; let c ← P.bool; pure (a, b, c)) impl
+  pure { model := "1 1 1", oracle := a && b && c, nontrivial := true,
+         note := if !a then "a scrape overlapping a re-initialisation of its interface never completes"
+           else if !b then "the re-initialisation (Prepare) never completes while a scrape is under way"
+           else if !c then "scrapes are blocked after a scrape overlapped a re-initialisation" else "" }
+
 end Driver.C17
